@@ -9,6 +9,11 @@ def unique_global(shape, dtype="float", salt=0):
     """Global array in eta-order whose every cell is distinct (so a wrong cell names its origin)."""
     n = int(np.prod(shape))
     ids = np.arange(n, dtype=np.int64) + salt * n
+    if dtype in ("float32", "int32", "complex64"):
+        # narrow payloads: ids stay exactly representable (n*(salt+1) < 2**24)
+        G = {"float32": ids.astype(np.float32), "int32": ids.astype(np.int32),
+             "complex64": (ids.astype(np.float32) + 1j * (n * (salt + 1) - ids).astype(np.float32)).astype(np.complex64)}[dtype]
+        return G.reshape(tuple(shape))
     if dtype in ("float", float, np.float64):
         G = ids.astype(np.float64)
     elif dtype in ("complex", complex, np.complex128):
@@ -21,7 +26,8 @@ def unique_global(shape, dtype="float", salt=0):
 
 
 def np_dtype(dtype):
-    return {"float": np.float64, "complex": np.complex128, "int": np.int64}[dtype] if isinstance(dtype, str) else dtype
+    return {"float": np.float64, "complex": np.complex128, "int": np.int64, "float32": np.float32, "int32": np.int32,
+            "complex64": np.complex64}[dtype] if isinstance(dtype, str) else dtype
 
 
 def sentinel(dtype):
